@@ -951,7 +951,7 @@ class Context:
             if s[i] in "+-":
                 i += 1
             while i < len(s):
-                if s[i].isdigit():
+                if "0" <= s[i] <= "9":
                     i += 1
                 elif s[i] == "." and not has_dot:
                     has_dot = True
@@ -1311,7 +1311,7 @@ class Context:
         if s[i] in "+-":
             i += 1
         while i < len(s):
-            if s[i].isdigit():
+            if "0" <= s[i] <= "9":
                 i += 1
             elif s[i] == "." and not has_dot:
                 has_dot = True
